@@ -132,6 +132,19 @@ CLAIMED.update({
             "monotonicity, BICYCLE levelized costs, 3/4-segment gradient monotonicity.", "DESIGN.md section 4 C18"),
 })
 
+CLAIMED.update({
+    "C07": ("proof", TECH + " + ground evaluation of the module readers over the complete parameter catalogue",
+            "ReadParameter is proved for every float and integer parameter declaration of every module class "
+            "(standard, SBT, SUTRA, add-ons, S-DAC-GT, HIP-RA-X; grouped by identical declaration, with a checked "
+            "read-set) for ALL supplied numerals: normal return only inside the documented range / set or at the "
+            "sentinel, the accepted value is stored as given (bounds included), rejection only outside the range with a "
+            "ValueError naming the parameter and the value untouched. Ground obligations (complete over 711 catalogue "
+            "entries): an out-of-range entry makes the real module reader raise an error naming the parameter. One "
+            "genuine defect found and fixed (integer input equal to the declared default ignored).",
+            TRUSTED + "Numerals are plain finite decimals (no unit); list parameters and the client's RuntimeError "
+            "wrapping are not covered here.", "DESIGN.md section 4 C07"),
+})
+
 NOT_APPLICABLE = {
     "C13": "independence/non-replication of Monte Carlo draws across forked pool workers is a schedule/process-history "
            "property of numpy's global RNG under fork; no per-call contract can state it (DESIGN.md section 6)",
